@@ -312,15 +312,15 @@ def unit_log():
     US, CNT = "old(self).streams_manager.used_streams", "old(self).streams_manager.used_streams_count@"
     rules = [Rule("R3-retry-path", r"\bkeen_retry::RetryResult::", "RetryResult::", min=1),
              Rule("R6-live-count", r"self\.streams_manager\.running_streams_count\(\)", "self.live_count_for_wakeup()", count=1, note="the wake-up loop's bound -> shim that requires the event to be visible already"),
-             Rule("R6-alias", r"let used_streams = self\.streams_manager\.used_streams\(\);", "", count=1, note="&[u32; M] alias of the live list inlined"),
-             Rule("R6-get_unchecked", r"\*unsafe \{ used_streams\.get_unchecked\(([^()]*)\) \}", r"self.streams_manager.used_streams[\1]", count=1, note="unchecked read -> checked index (bound obligation)"),
-             Rule("R12-for-label", r"\bfor\s+(\w+)\s+in\s+(?!it_)", r"for \1 in it_\1: ", count=1),
+             Rule("R6-alias", r"let used_streams = self\.streams_manager\.used_streams\(\);", "", min=0, note="&[u32; M] alias of the live list inlined"),
+             Rule("R6-get_unchecked", r"\*unsafe \{ used_streams\.get_unchecked\(([^()]*)\) \}", r"self.streams_manager.used_streams[\1]", min=0, note="unchecked read -> checked index (bound obligation)"),
+             Rule("R12-for-label", r"\bfor\s+(\w+)\s+in\s+(?!it_)", r"for \1 in it_w: ", count=1, note="ghost iterator label (independent of the loop variable's name)"),
              Rule("R9-expect", r"\.expect\(\"[^\"]*\"\)", ".unwrap()", count=1, note="expect -> unwrap: reachability of the BUG! panic becomes an obligation")]
-    inv = ("invariant old(self).streams_manager.inv_sm(), self.streams_manager.inv_sm(), it_i.iter.end == running_streams_count, it_i.iter.start <= running_streams_count, running_streams_count == " + CNT + ","
+    inv = ("invariant old(self).streams_manager.inv_sm(), self.streams_manager.inv_sm(), it_w.iter.end == " + CNT + ", it_w.iter.start <= " + CNT + ","
            " self.streams_manager.used_streams == " + US + ", self.streams_manager.used_streams_count == old(self).streams_manager.used_streams_count, self.log_queue.log@ == old(self).log_queue.log@.push(PAYLOAD),"
            " forall|id: int| 0 <= id < MAX_STREAMS ==> self.streams_manager.wakes@[id] >= old(self).streams_manager.wakes@[id],"
-           " forall|k: int| 0 <= k < it_i.iter.start ==> self.streams_manager.wakes@[" + US + "[k] as int] > old(self).streams_manager.wakes@[" + US + "[k] as int],\n"
-           "ensures it_i.iter.start == " + CNT + ",")
+           " forall|k: int| 0 <= k < it_w.iter.start ==> self.streams_manager.wakes@[" + US + "[k] as int] > old(self).streams_manager.wakes@[" + US + "[k] as int],\n"
+           "ensures it_w.iter.start == " + CNT + ",")
     post = ("r is Ok ==> final(self).log_queue.log@ == old(self).log_queue.log@.push(PAYLOAD) && (forall|k: int| 0 <= k < " + CNT + " ==> final(self).streams_manager.wakes@[" + US + "[k] as int] > old(self).streams_manager.wakes@[" + US + "[k] as int]),"
             "(r matches RetryResult::Transient { input, .. } ==> input == INPUT && final(self).log_queue.log == old(self).log_queue.log && final(self).streams_manager == old(self).streams_manager),"
             "!(r is Fatal), final(self).streams_manager.used_streams == " + US)
